@@ -470,29 +470,33 @@ class VizierServicer(vizier_service_pb2_grpc.VizierServiceServicer):
       ]
       new_trials = svz.TrialConverter.to_protos(new_py_trials)
 
-      # If Pythia under-delivered, hand out what was delivered.
-      while new_trials and request.suggestion_count > len(output_trials):
-        new_trial = new_trials.pop()
-        trial_id = self.datastore.max_trial_id(request.parent) + 1
-        new_trial.id = str(trial_id)
-        new_trial.name = TrialResource(owner_id, study_id, trial_id).name
-        new_trial.state = study_pb2.Trial.State.ACTIVE
-        new_trial.start_time.CopyFrom(start_time)
-        new_trial.client_id = request.client_id
-        self.datastore.create_trial(new_trial)
-        output_trials.append(new_trial)
+      # Trial ids are allocated as max_trial_id + 1: allocate and create them
+      # under the study lock, like CreateTrial, so that the two cannot pick the
+      # same id.
+      with self._study_name_to_lock[study_name]:
+        # If Pythia under-delivered, hand out what was delivered.
+        while new_trials and request.suggestion_count > len(output_trials):
+          new_trial = new_trials.pop()
+          trial_id = self.datastore.max_trial_id(request.parent) + 1
+          new_trial.id = str(trial_id)
+          new_trial.name = TrialResource(owner_id, study_id, trial_id).name
+          new_trial.state = study_pb2.Trial.State.ACTIVE
+          new_trial.start_time.CopyFrom(start_time)
+          new_trial.client_id = request.client_id
+          self.datastore.create_trial(new_trial)
+          output_trials.append(new_trial)
 
-      output_op.response.value = vizier_service_pb2.SuggestTrialsResponse(
-          trials=output_trials, start_time=start_time
-      ).SerializeToString()
+        output_op.response.value = vizier_service_pb2.SuggestTrialsResponse(
+            trials=output_trials, start_time=start_time
+        ).SerializeToString()
 
-      # Store remaining trials as REQUESTED if Pythia over-delivered.
-      for remain_trial in new_trials:
-        trial_id = self.datastore.max_trial_id(request.parent) + 1
-        remain_trial.id = str(trial_id)
-        remain_trial.name = TrialResource(owner_id, study_id, trial_id).name
-        remain_trial.state = study_pb2.Trial.State.REQUESTED
-        self.datastore.create_trial(remain_trial)
+        # Store remaining trials as REQUESTED if Pythia over-delivered.
+        for remain_trial in new_trials:
+          trial_id = self.datastore.max_trial_id(request.parent) + 1
+          remain_trial.id = str(trial_id)
+          remain_trial.name = TrialResource(owner_id, study_id, trial_id).name
+          remain_trial.state = study_pb2.Trial.State.REQUESTED
+          self.datastore.create_trial(remain_trial)
 
       output_op.done = True
       self.datastore.update_suggestion_operation(output_op)
